@@ -54,6 +54,16 @@ theorem cv_loops_eq_hand :
     (∀ b, read_loops b = .ok (readLoops b.loops)) :=
   ⟨loop_blob_empty_eq, write_loop_eq, read_loop_eq, write_loops_eq, read_loops_eq⟩
 
+/-- **convert_beatgrid.hpp, regenerated = hand model**: the single pass with a write through
+`converted.back()` is the hand model's look-ahead recursion; the `int64_t` subtraction never overflows. -/
+theorem cv_grid_eq_hand :
+    (∀ m, read_beatgrid_marker m = .ok ⟨trunc32 m.beatNo, m.off⟩) ∧
+    (∀ g, read_beatgrid_markers g = .ok (readGridMarkers g)) ∧
+    (∀ g, write_beatgrid_markers g = .ok (writeGridMarkers g)) ∧
+    (∀ g, write_beatgrid g =
+      .ok ((if (writeGridMarkers g).isEmpty then 0 else 1), writeGridMarkers g, writeGridMarkers g)) :=
+  ⟨read_beatgrid_marker_eq, read_beatgrid_markers_eq, write_beatgrid_markers_eq, write_beatgrid_eq⟩
+
 /-- `album_art_id` (translated although `track_impl.cpp` does not call it): 1 is "none". -/
 theorem cv_album_art_id (a : Option UInt64) :
     (write_album_art_id a).bind read_album_art_id = .ok (match a with | some v => if v = 1 then none else some v | none => none) := by
@@ -128,6 +138,20 @@ theorem cv_main_cue_roundtrip (v : Option F) :
     (write_main_cue v).bind read_main_cue = .ok (Spec.normZeroAbsent v) := by
   rw [write_main_cue_eq]; simp only [Res.bind]; rw [read_main_cue_eq]
   exact congrArg Res.ok (zeroAbsent_getD v)
+
+/-- beat grid: every marker (index, offset) comes back verbatim from the adjusted grid — and from the default
+grid, which holds the same markers; the flag says whether there are any; never undefined -/
+theorem cv_grid_roundtrip (g : List GMarker) :
+    (write_beatgrid g).bind (fun p => read_beatgrid_markers p.2.2) = .ok g ∧
+    (write_beatgrid g).bind (fun p => read_beatgrid_markers p.2.1) = .ok g ∧
+    (write_beatgrid g).bind (fun p => .ok p.1) = .ok (if g.isEmpty then 0 else 1) := by
+  rw [write_beatgrid_eq]
+  simp only [Res.bind]
+  rw [read_beatgrid_markers_eq, read_write_grid]
+  refine ⟨rfl, rfl, ?_⟩
+  cases g with
+  | nil => rfl
+  | cons a r => cases r <;> rfl
 
 /-- hot cues: at most eight are padded to eight slots (a cue at −1.0 is an empty slot) … -/
 theorem cv_hot_cues_roundtrip (cs : List (Option HotCue)) (h : cs.length ≤ 8) (a d : F) (b : Bool) :
@@ -224,5 +248,11 @@ example : (write_hot_cues [some ⟨[65], F64.negOne, ⟨1, 2, 3, 4⟩⟩]).bind 
 example : (write_loops [none, some ⟨[66], 0, 0x3ff0000000000000, ⟨9, 9, 9, 9⟩⟩]).bind read_loops =
     .ok ([none, some ⟨[66], 0, 0x3ff0000000000000, ⟨9, 9, 9, 9⟩⟩] ++ List.replicate 6 none) := by decide
 example : (([none, none] : List (Option HotCue)).length ≤ 8) := by decide
+-- three markers: beat distances 4 and 8 written through the reference, the last keeps 0
+example : write_beatgrid_markers [⟨0, 0⟩, ⟨4, 0x40e5888000000000⟩, ⟨12, 0x40f5888000000000⟩] =
+    .ok [⟨0, 0, 4, 0⟩, ⟨0x40e5888000000000, 4, 8, 0⟩, ⟨0x40f5888000000000, 12, 0, 0⟩] := by decide
+-- extreme indices: the distance INT32_MAX − INT32_MIN wraps to −1 in the int32 field, no overflow of the int64 subtraction
+example : write_beatgrid_markers [⟨0x80000000, 0⟩, ⟨0x7fffffff, 0⟩] =
+    .ok [⟨0, 0xffffffff80000000, 0xffffffff, 0⟩, ⟨0, 0x7fffffff, 0, 0⟩] := by decide
 
 end EngineModel.Properties.C01V2Convert
